@@ -992,6 +992,9 @@ func runMachine(t *rapid.T, mode int) {
 	}
 	for i := 0; i < n && !mc.abandoned; i++ {
 		lv := mc.live()
+		if len(lv) == 0 {
+			break
+		}
 		x := lv[0]
 		if len(lv) > 1 && rapid.IntRange(0, 9).Draw(t, "who") >= 4 {
 			x = rapid.SampledFrom(lv).Draw(t, "inst")
@@ -1017,9 +1020,18 @@ func runMachine(t *rapid.T, mode int) {
 			// application never touches a state between IntermediateRoot and Commit, and while that finding is
 			// listed neither does this generator
 			if ok && x.w.kv() && mc.knownKVPending {
-				vstat.Excluded(kKVPending)
-				o.Kind, o.S = "commit", 0
-				ok = commitBoth(x, o)
+				if x != mc.insts[0] && len(mc.live()) > 1 && rapid.Bool().Draw(t, "abandon_after_ir") {
+					// ... or the instance is a speculative one that is dropped right here (PreRunBlock / CheckBlock of a proposal
+					// that is never committed): it is not used again, so the listed finding is not touched, but what it has
+					// finalised must die with it
+					x.dead = true
+					mc.hist = append(mc.hist, fmt.Sprintf("(%s is abandoned after its intermediate root)", x.name))
+					vstat.Label("kv_instance_abandoned_after_intermediate_root")
+				} else {
+					vstat.Excluded(kKVPending)
+					o.Kind, o.S = "commit", 0
+					ok = commitBoth(x, o)
+				}
 			}
 		case "commit":
 			ok = commitBoth(x, o)
